@@ -23,7 +23,7 @@ use std::time::{Duration, Instant};
 pub static META: PropMeta = PropMeta {
     id: "C11",
     level: "exploration",
-    rule: "cases: the loop thread runs run(None | 3 s) or block_on(scripted future), in 40% of the cases with a timer armed for one hour in the loop (so that the wait is bounded by a timer deadline); 1..2 actor threads with programs over wakeup / stop / stop+wakeup (run mode) or wake / wake_by_ref+clone / complete+wake / stop+wakeup (block_on mode), released only after the loop thread passed the 'run began' site; in block_on mode the future may additionally wake itself during its first 1..3 polls (on the loop thread), in some cases with no other wake-up source at all; the schedule over all yield sites is generated. oracle (logical clock of the controller, blocked-in-kernel detected via /proc): after a wakeup() returned, the wait in progress or the next one returns (a loop thread still asleep in the poller with no wait-return after the wake-up, observed over 300 scheduling rounds, is a lost wake-up); after stop() then wakeup() returned the loop enters the wait at most once more and run returns Ok; run/block_on never return without cause (Ok/None only after a stop began, Some(v) only after the future returned Ready(v)); the future is polled initially and a poll starts after every wake that began while it was pending. non-trivial: an actor's signal site falls between the loop's stop-flag check and its entry into the wait, or between the waker's flag store and its notify, or between the loop's flag swap and its wait; distinct by case fingerprint; (inloop) 1..5 loop iterations whose timer callback issues 0..4 of stop / complete the future / wake it / wakeup / insert_idle on the loop thread, run() or block_on(), result + poll count + completed iterations + idles + closure runs compared with a reference model; non-trivial: a stop in the same callback as a wake or an idle insertion",
+    rule: "cases: the loop thread runs run(None | 3 s) or block_on(scripted future), in 40% of the cases with a timer armed for one hour in the loop (so that the wait is bounded by a timer deadline); 1..2 actor threads with programs over wakeup / stop / stop+wakeup (run mode) or wake / wake_by_ref+clone / complete+wake / stop+wakeup (block_on mode), released only after the loop thread passed the 'run began' site; in block_on mode the future may additionally wake itself during its first 1..3 polls (on the loop thread), in some cases with no other wake-up source at all; the schedule over all yield sites is generated. oracle (logical clock of the controller, blocked-in-kernel detected via /proc): after a wakeup() returned, the wait in progress or the next one returns (a loop thread still asleep in the poller with no wait-return after the wake-up, observed over 300 scheduling rounds, is a lost wake-up); after stop() then wakeup() returned the loop enters the wait at most once more and run returns Ok; run/block_on never return without cause (Ok/None only after a stop began, Some(v) only after the future returned Ready(v)); the future is polled initially and a poll starts after every wake that began while it was pending. non-trivial: an actor's signal site falls between the loop's stop-flag check and its entry into the wait, or between the waker's flag store and its notify, or between the loop's flag swap and its wait; distinct by case fingerprint; (inloop) 1..5 loop iterations whose timer callback issues 0..4 of stop / complete the future / wake it / wakeup / insert_idle / insert an idle that itself calls stop()+wakeup() on the loop thread, optionally the per-iteration closure calling stop()+wakeup() at its k-th run (the iteration in progress is then the last), run() or block_on(), result + poll count + completed iterations + idles + closure runs compared with a reference model; non-trivial: a stop in the same callback as a wake or an idle insertion",
     assumptions: &[
         "interleavings at yield-site granularity, x86-TSO, real atomics and real poller notification (eventfd)",
         "'promptly' is never a duration: only a loop thread provably asleep in the kernel with an unserved wake-up counts",
@@ -586,6 +586,9 @@ pub enum InAct {
     /// insert an idle callback that inserts another idle when it runs: the inner one belongs to the NEXT iteration (and
     /// never runs if the loop leaves first)
     IdleChain,
+    /// insert an idle callback that calls stop() + wakeup() when it runs (in this iteration, after the source callbacks):
+    /// a stop requested during the idle phase still ends the call after the iteration in progress, not one later
+    IdleStop,
 }
 
 #[derive(Serialize, Deserialize, Debug, Clone, Hash, PartialEq, Eq)]
@@ -609,12 +612,16 @@ pub struct InCase {
     /// call left behind
     #[serde(default)]
     pub wakeup_between: bool,
+    /// the per-iteration closure itself calls stop() + wakeup() when it runs for the k-th time (0-based): the request is
+    /// made inside the iteration in progress, which is then the last one
+    #[serde(default)]
+    pub closure_stop_at: Option<u8>,
 }
 
 pub fn in_strategy() -> impl Strategy<Value = InCase> {
-    let act = prop_oneof![3 => Just(InAct::Stop), 3 => Just(InAct::Complete), 4 => Just(InAct::Wake), 1 => Just(InAct::Wakeup), 2 => Just(InAct::Idle), 2 => Just(InAct::IdleChain)];
-    (proptest::collection::vec(any::<bool>(), 0..=2), any::<bool>(), proptest::collection::vec(proptest::collection::vec(act, 0..=4), 1..=5), prop::bool::weighted(0.3), prop::bool::weighted(0.2), prop::bool::weighted(0.25))
-        .prop_map(|(prelude, block_on, rounds, closure_idle, first_poll_stop, wakeup_between)| InCase { prelude, block_on, rounds, closure_idle, first_poll_stop: first_poll_stop && block_on, wakeup_between })
+    let act = prop_oneof![3 => Just(InAct::Stop), 3 => Just(InAct::Complete), 4 => Just(InAct::Wake), 1 => Just(InAct::Wakeup), 2 => Just(InAct::Idle), 2 => Just(InAct::IdleChain), 2 => Just(InAct::IdleStop)];
+    (proptest::collection::vec(any::<bool>(), 0..=2), any::<bool>(), proptest::collection::vec(proptest::collection::vec(act, 0..=4), 1..=5), prop::bool::weighted(0.3), prop::bool::weighted(0.2), prop::bool::weighted(0.25), prop::option::weighted(0.25, 0u8..5))
+        .prop_map(|(prelude, block_on, rounds, closure_idle, first_poll_stop, wakeup_between, closure_stop_at)| InCase { prelude, block_on, rounds, closure_idle, first_poll_stop: first_poll_stop && block_on, wakeup_between, closure_stop_at })
 }
 
 struct InFut {
@@ -663,6 +670,7 @@ pub fn run_inloop(case: &InCase) -> CaseOutcome {
     let mut rounds_run = 0usize;
     // idles queued for the next dispatch_idles (plain ones / ones that insert another idle), and how many ran in all
     let (mut q_plain, mut q_chain, mut idles_expected) = (0u32, 0u32, 0u32);
+    let mut q_stop = 0u32;
     for r in &rounds {
         rounds_run += 1;
         let mut stopped = false;
@@ -674,8 +682,15 @@ pub fn run_inloop(case: &InCase) -> CaseOutcome {
                 InAct::Wakeup => {}
                 InAct::Idle => q_plain += 1,
                 InAct::IdleChain => q_chain += 1,
+                InAct::IdleStop => q_stop += 1,
             }
         }
+        // (an idle of this iteration that asks for the stop, or the closure doing so, ends the call with this iteration)
+        if q_stop > 0 || case.closure_stop_at.map(|k| k as usize) == Some(rounds_run - 1) {
+            stopped = true;
+        }
+        idles_expected += q_stop;
+        q_stop = 0;
         // the idles of this iteration run now; what they insert waits for the next iteration, as does what the
         // per-iteration closure inserts right afterwards
         idles_expected += q_plain + q_chain;
@@ -798,6 +813,15 @@ pub fn run_inloop(case: &InCase) -> CaseOutcome {
                                     n.fetch_add(1, Ordering::SeqCst);
                                 });
                             }
+                            InAct::IdleStop => {
+                                let n = idles_ran.clone();
+                                let sig = signal.clone();
+                                let _ = h2.insert_idle(move |_| {
+                                    n.fetch_add(1, Ordering::SeqCst);
+                                    sig.stop();
+                                    sig.wakeup();
+                                });
+                            }
                             InAct::IdleChain => {
                                 let n = idles_ran.clone();
                                 let w2 = h2.downgrade();
@@ -838,8 +862,13 @@ pub fn run_inloop(case: &InCase) -> CaseOutcome {
     let cr = closure_runs.clone();
     let closure_idle = case.closure_idle;
     let (weak_c, idles_c, give_up_c) = (handle.downgrade(), idles_ran.clone(), give_up.clone());
+    let (sig_c, stop_at) = (signal.clone(), case.closure_stop_at);
     let mut closure = move || {
-        cr.fetch_add(1, Ordering::SeqCst);
+        let k = cr.fetch_add(1, Ordering::SeqCst);
+        if stop_at.map(|s| s as u32) == Some(k) {
+            sig_c.stop();
+            sig_c.wakeup();
+        }
         if closure_idle && !give_up_c.load(Ordering::SeqCst) {
             if let Some(h) = weak_c.upgrade() {
                 let n = idles_c.clone();
@@ -871,6 +900,12 @@ pub fn run_inloop(case: &InCase) -> CaseOutcome {
     }
     if first_poll_stop {
         info.classes.push("inloop_stop_requested_by_the_first_poll");
+    }
+    if case.rounds.iter().any(|r| r.contains(&InAct::IdleStop)) {
+        info.classes.push("inloop_stop_requested_by_an_idle_callback");
+    }
+    if case.closure_stop_at.is_some() {
+        info.classes.push("inloop_stop_requested_by_the_per_iteration_closure");
     }
     if case.wakeup_between {
         info.classes.push(if case.prelude.last() == Some(&false) { "inloop_wakeup_between_calls_after_a_stopped_call" } else { "inloop_wakeup_between_calls" });
